@@ -6,7 +6,7 @@ from ai_edge_quantizer import quantizer as aeq, model_modifier
 from tensorflow.lite.tools import flatbuffer_utils as fu
 from vf.gen import models, recipes
 from vf.oracle import interp
-from vf.props import common
+from vf.props import c01, common
 
 LEVEL = 'exploration'
 GUARD = 'AI_EDGE_QUANTIZER_VERIF'
@@ -178,12 +178,11 @@ def run_case(ctx, case, rng):
         if o1[k].dtype != o2[k].dtype or o1[k].tobytes() != o2[k].tobytes():
           ctx.violation('interpreter_outputs_differ', {}, dict(base, output=k))
           return
-  ctx.risky('interp.both_forms', go, {'rules': small.accepted})
+  ctx.risky('interp.both_forms', go, common.risky_info(small, spec, datasets, {'rules': small.accepted}))
   return {}
 
 
-def crash_to_violation(open_call, crash):
-  return None  # an abort here is C01's finding (same model aborts on the ordinary path); inconclusive for C16
+crash_to_violation = c01.crash_to_violation
 
 
 def summarize(agg):
